@@ -556,12 +556,15 @@ class Pool:
             self.objs.append(o2)
             self.models.append(m2)
         else:
+            # in-place operation (support setter): every pool entry that IS the target object sees it -- as_vector /
+            # as_nurbs may have returned their argument itself
+            replaces = [k for k, o in enumerate(self.objs) if o is o2]
             for k in replaces:
-                self.models[k] = m2
+                self.models[k] = m2 if self.models[k] is self.models[ev[1]] or k == ev[1] else m_restrict(self.models[k], [tuple(b) for b in ev[2]])
         if check:
             note = compare(o2, m2, ev[0], probs, self.calls)
             if note:
-                self.notes.add("%s of a scalar %s returns output shape (1,)" % (ev[0], self.models[ev[1]].kind))
+                self.notes.add("%s: scalar-valued %s returned with output shape (1,) instead of ()" % (ev[0], type(o2).__name__))
         # no operation alters an existing object
         for k, (o, s) in enumerate(zip(self.objs[:len(self.snaps)], self.snaps)):
             now = snapshot(o)
